@@ -98,9 +98,19 @@ DosePairing(t) == \A j \in Images(t) : Proportional(t, Ref(t), j)
 \* ... and a dose of at least 1 e/A^2 does attenuate: at the frequency with the largest radial key (the last entry; at
 \* least the Nyquist frequency of an axis, >= 0.04 1/A for pixel sizes up to 10 A, where 2 Ne < 110) the exponent is
 \* at least 9e-3 per e/A^2 - so an image that comes back unfiltered is rejected also off the calibration grid
+\* two images whose doses differ by as little as 1e-3 e/A^2 are still attenuated differently: t.near[p] = [i, j, dd, nl]
+\* with dose_j - dose_i = dd x 1e-6 > 0 and nl = ln(gain_i / gain_j) x 1e9 at the frequency with the largest radial key,
+\* where 5.62 < 2 Ne <= 110 (frequencies >= 0.04 1/A):   dd / 110  <=  nl / 1000  <=  dd / 5.62
+NearDosesResolved(t) ==
+    \A p \in DOMAIN t.near :
+        LET r == t.near[p] IN
+        /\ r.dd > 0 /\ r.dd <= 10000 /\ r.i \in Images(t) /\ r.j \in Images(t)
+        /\ r.nl * 110 >= r.dd * 1000
+        /\ r.nl * 562 <= r.dd * 100000
 MoreDoseAttenuatesMore(t) ==
     /\ \A i, j \in Images(t) : t.d100[i] <= t.d100[j] => \A e \in Entries(t) : t.A[i][e] <= t.A[j][e] + TolA
     /\ Len(t.ent) >= 2 => \A i \in Images(t) : t.d100[i] >= 100 => t.A[i][Len(t.ent)] >= 5
+    /\ NearDosesResolved(t)
 
 \* calibration against the closed form of the statement at on-axis frequencies that fall on the table grid:
 \*   A = d / TwoNe(f)   <=>   (A x 1e3) * (TwoNe x 1e2) = d100 * 1e3,    within 0.5 %, for doses >= 50 e/A^2
